@@ -2,6 +2,8 @@
 
 package collect
 
+import "github.com/honeycombio/refinery/types"
+
 // simHeapAlloc is the identity in normal builds; with the verif build tag the
 // simulation harness can substitute the heap reading used by checkAlloc.
 func simHeapAlloc(_ *InMemCollector, v uint64) uint64 { return v }
@@ -9,3 +11,7 @@ func simHeapAlloc(_ *InMemCollector, v uint64) uint64 { return v }
 // outgoingQueueCap is the identity in normal builds; with the verif build tag
 // the simulation harness can shrink the outgoing queue.
 func outgoingQueueCap(_ *InMemCollector, n int) int { return n }
+
+// orderTraces does nothing in normal builds; with the verif build tag the
+// simulation harness decides the order among equally heavy traces.
+func orderTraces(_ []*types.Trace) {}
